@@ -51,3 +51,21 @@ package lossy
 //@   modifies enc, enc.mbInfo[:]
 //@   loop 1: invariant forall k int :: 0 <= k && k <= rangeindex ==> enc.mbInfo[k].Segment == 0
 //@   ensures old(enc.segmentHdr.UpdateMap) && !enc.segmentHdr.UpdateMap ==> forall k int :: 0 <= k && k < len(enc.mbInfo) ==> enc.mbInfo[k].Segment == 0
+//
+// ---- C07: the ALPH payload is the plane the header describes ----
+//
+// Whatever compression is finally used, a raw (method 0) payload is the
+// *filtered* plane when the header byte names a filter: the decoder will undo
+// exactly that filter. The filter field of the header is the filter applied.
+//@ func encodeAlphaInternal
+//@   property C07 C02
+//@   requires width > 0 && height > 0 && width*height == len(data) && len(data) <= 0x40000000
+//@   requires 0 <= method && method <= 1 && 0 <= filter && filter <= 3 && 0 <= effortLevel && effortLevel <= 9
+//@   modifies nothing
+//@   abstract alphaFilterHorizontal, alphaFilterVertical, alphaFilterGradient, Encode
+//@   ensures result2 == nil ==> len(result0) >= 1 && result1 == len(result0)
+//@   ensures result2 == nil ==> int(result0[0] >> 2) & 3 == filter && int(result0[0] & 3) <= 1
+//@   ensures result2 == nil ==> (reduceLevels <==> (result0[0] >> 4) & 3 == 1)
+//@   ensures result2 == nil && result0[0] & 3 == 0 ==> len(result0) == 1 + len(data)
+//@   ensures result2 == nil && result0[0] & 3 == 0 ==> forall k int :: 0 <= k && k < len(data) ==> result0[1+k] == alphaSrc[k]
+//@   ensures result2 == nil && method == 0 ==> result0[0] & 3 == 0
